@@ -10,6 +10,9 @@ type analysisError string
 const (
 	ErrAnalysis analysisError = "analysis error"
 	ErrNoSchema analysisError = "no schema to analyze"
+
+	// ErrNoProgress is returned when importing remote references leaves the very same references in place
+	ErrNoProgress analysisError = "remote $ref could not be imported"
 )
 
 func (e analysisError) Error() string {
